@@ -153,6 +153,7 @@ class Universe:
                 obj = getattr(obj, p)
             return obj
 
+        bound = []
         # shorter NEW first: a NEW that is an ancestor of another NEW must be bound before it
         for old, new in sorted(self.entries, key=lambda e: e[1].count(".")):
             obj = real.get(old) or resolve(old)
@@ -170,12 +171,39 @@ class Universe:
                         setattr(sys.modules[".".join(nparts[:i - 1])], nparts[i - 1], m)
             if len(nparts) > 1:
                 setattr(sys.modules[".".join(nparts[:-1])], nparts[-1], obj)
-            if len(nparts) == 1:
-                self._reg(new, obj)
+            # NEW is registered for the very object OLD denotes, module or not: a deeper NEW of another entry
+            # (NEW.x) then finds this ancestor already bound and becomes an attribute of that same object,
+            # instead of a synthetic package replacing it.
+            self._reg(new, obj)
+            bound.append((old, new, obj))
             if isinstance(obj, types.ModuleType):
                 for p in list(real):
                     if under(p, old):
                         self._reg(new + p[len(old):], real[p])
+        # self-check: every NEW must denote exactly the object its OLD denotes, by attribute access from the
+        # top-level module as well as by sys.modules; otherwise the oracle must not use this universe.
+        self.consistent = True
+        for old, new, obj in bound:
+            nparts = new.split(".")
+            cur = sys.modules.get(nparts[0])
+            for p in nparts[1:]:
+                cur = getattr(cur, p, None) if cur is not None else None
+            if cur is not obj or sys.modules.get(new) is not obj or resolve(old) is not obj:
+                self.consistent = False
+            # ... and so must every NEW.suffix (e.g. {a: n, a.c: n.a} with a real module a.a cannot be satisfied)
+            if isinstance(obj, types.ModuleType):
+                for p in real:
+                    if under(p, old):
+                        q = (new + p[len(old):]).split(".")
+                        cur = sys.modules.get(q[0])
+                        for x in q[1:]:
+                            cur = getattr(cur, x, None) if cur is not None else None
+                        if cur is not real[p] or sys.modules.get(".".join(q)) is not real[p]:
+                            self.consistent = False
+        # the real tree must be intact (binding a NEW must not have overwritten a real attribute)
+        for p in real:
+            if resolve(p) is not real[p] or sys.modules.get(p) is not real[p]:
+                self.consistent = False
         return self
 
     def __exit__(self, *exc):
@@ -209,7 +237,10 @@ def run_program(text):
 
 
 def run_both(mods, entries, text_in, text_out):
-    with Universe(mods, entries):
+    """(trace of input, trace of output); (None, None) if the aliasing universe could not be built consistently."""
+    with Universe(mods, entries) as u:
+        if not u.consistent:
+            return None, None
         t_in = run_program(text_in)
         t_out = run_program(text_out) if text_out is not None else None
     return t_in, t_out
